@@ -26,7 +26,7 @@ MODES = {
     "gapped+gz9+cks": dict(cont=False, comp=9, cks=True),
 }
 
-EPOCHS = [(1980, 1, 1, 0, 0, 0), (2014, 3, 9, 12, 30, 30), (2099, 12, 31, 23, 59, 50)]
+EPOCHS = [(1980, 1, 1, 0, 0, 0), (2014, 3, 9, 2, 59, 58), (2099, 12, 31, 23, 59, 50)]
 
 L_FULL = (1, 2, 3, 5, 9)
 G_FULL = (0, 1, 2, 4, 9)
